@@ -382,6 +382,8 @@ void runInner(const Case &c, verif_result *out) {
             for (auto &e : s.edges) {
                 double w = (double)(e.x < 0 ? -e.x : e.x) / 7.0;
                 UPair k = m.key(e.i, e.j);
+                m.absHistory += std::fabs((long double)w);
+                ++m.opsHistory;
                 if (e.remove) {
                     g.removeEdge(e.i, e.j);
                     m.e.erase(k);
